@@ -886,6 +886,19 @@ example : (writeFile .over [((['d'], ['f']), 1)] (['d'], ['f']) 2).map (lookupF 
     = some (some 2) := by decide
 
 
+-- the dask path: a file planted in the run's directory before the first compute survives, and computing
+-- the lazy result a second time (all writes repeated, here with other data) changes nothing
+-- (`never_overwrites`: the writers of `save_to_files` skip an existing file); with an overwriting writer
+-- (seeded defect C19-4) the second compute replaces the first one's file
+example :
+    let nm := fileName .parallel .image ['n','p','y'] 0
+    let planted : Files Nat := [((['d'], fileName .parallel .pixel ['n','p','y'] 0), 99)]
+    let combos := [(Bucket.image, ['n','p','y']), (Bucket.pixel, ['n','p','y'])]
+    ((saveRun ['d'] planted (opsDirect .parallel 0 (fun _ => 1) combos ++ opsDirect .parallel 0 (fun _ => 2) combos)).map
+      (fun r => (lookupF r.1 (['d'], nm), lookupF r.1 (['d'], fileName .parallel .pixel ['n','p','y'] 0))))
+      = some (some 1, some 99) ∧
+    ((writeFile .over [((['d'], nm), 1)] (['d'], nm) 2).map (lookupF · (['d'], nm))) = some (some 2) := by decide
+
 -- a bucket requested by two non-adjacent entries of the save list (`image: [fits]`, `pixel: [npy]`,
 -- `image: [npy]`): the model is per (bucket, extension, run) combination, so all three are reported for
 -- each run whatever the order of the entries (`observation_complete` / `direct_complete` only need the
